@@ -48,7 +48,7 @@ class Scratch:
         os.makedirs(self.dir, exist_ok=True)
         self.other = os.path.join(self.dir, "elsewhere")
         os.makedirs(self.other, exist_ok=True)
-        self.n = 0
+        self.n = case.index % 3  # (which of the names handed out are pre-populated differs from case to case: see path())
 
     def path(self, stem="f", sub=None):
         """a unique file name.  Every third name already HOLDS something when it is handed out - a longer, well-formed export of an
